@@ -1,5 +1,7 @@
-(* Proofs about the worker / flat-system model of rt/WorkerM.v (property C07).
-   Generated by concatenating the development files; statements are re-exported in props/C07.v. *)
+(* Proofs about the worker / flat-system model of rt/WorkerM.v (property C07); the statements are
+   re-exported in props/C07.v.  Parts: 1 lists/counting/effects, 2 run_exact, 3-5 Part A (conservation of
+   tasks), 6-11 Part V (values), 12-13 Part B (conservation of results), 14-16 Part C (mailbox accounting,
+   complete awaits, next batches), 17-20 Part D (wake-once for atomic registration), then the D7 witness. *)
 From Coq Require Import List Arith Bool PeanoNat Lia Permutation.
 Import ListNotations.
 From BQ Require Import rt.WorkerM.
